@@ -9,7 +9,7 @@ func Opts(t ...any) []cmp.Option {
 	opts := make([]cmp.Option, 0)
 
 	for _, v := range t {
-		opts = append(opts, cmpopts.IgnoreUnexported(v), cmpopts.IgnoreFields(v, "AnyOf"))
+		opts = append(opts, cmpopts.IgnoreUnexported(v), cmpopts.IgnoreFields(v, "AnyOf", "Dereferenced"))
 	}
 
 	return opts
